@@ -92,6 +92,24 @@ def generators(ctx, RA, RG, P) -> None:
         paths = en.run(fi)
         ctx.count("paths", len(paths))
         wl = walk_loops(paths)
+        # every way through the generator lists the descendants by os.walk: a path that loops over something else is either a known
+        # non-equivalent (os.fwalk) or not understood
+        for p in paths:
+            if p.outcome[0] == "raise" or any(e.kind == "loop" and e.text.startswith("os.walk(") for e in p.evs):
+                continue
+            for e in p.evs:
+                if e.kind != "loop":
+                    continue
+                if re.match(r"(os\.)?fwalk\(", e.text) or "os.fwalk(" in e.text:
+                    ctx.viol(
+                        RG,
+                        f"{gname} lists the descendants with os.walk",
+                        f"on the path [{p.sig()[:80]}] the descendants are listed by `{e.text[:60]}`: unlike os.walk, os.fwalk keeps one directory descriptor open per level (a deep tree exhausts them) and re-raises a failure for the top directory instead of yielding nothing, so descendants get no event (and the OSError ends the calling thread)",
+                        f"{evm.relpath}:{e.line}",
+                    )
+                    break
+                if any(x.kind == "yield" for b in e.extra["paths"] for x in b.flat()):
+                    raise AnalysisError(f"{gname}: a path yields events from a loop over `{e.text[:60]}`, not over os.walk (structure not recognised)")
         if len(wl) != 1:
             raise AnalysisError(f"{gname}: expected one os.walk loop, found {len(wl)}")
         W, inner = wl[0]
